@@ -42,6 +42,8 @@ def cases(tier, seed):
                 fv.update(dev)
                 fv["T"] = T
                 out.append({"id": f"{bname}-T{T}-n{n}", "fv": fv, "n": n, "subsets": "all", "seed": seed, "dev": 0})
+    # non-broadcast-safe auxiliary function as target: the target columns must still be row-wise correct
+    out.append({"id": "fam-B0+aux=reduce", "fv": dict(family.BASE, aux="reduce"), "n": 3, "subsets": "few", "seed": seed, "dev": 1, "skip_chain": True})
     members = e1.family_members(1 if tier == "quick" else 2)[0]
     for fv, dev in members:
         out.append({"id": "fam-" + e1.fv_id(fv), "fv": fv, "n": 3, "subsets": "few", "seed": seed, "dev": dev})
@@ -127,7 +129,7 @@ def run_case(case):
                     if not np.array_equal(np.asarray(fr.loc[0][s].values, dtype=np.float64), np.asarray(init[s], dtype=np.float64)):
                         problems.append(f"period-0 column {s} is not the supplied batch in order")
                 # deterministic chain: row (t+1, i) continues row (t, i)
-                for t in range(T - 1):
+                for t in range(T - 1 if not case.get("skip_chain") else 0):  # (K5: chain not checked for aux=reduce)
                     a, bb = fr.loc[t], fr.loc[t + 1]
                     env = {c: np.asarray(a[c].values) for c in r.states + r.choices}
                     for s in r.states:
@@ -149,7 +151,7 @@ def run_case(case):
                         j = int(np.argwhere(~np.isclose(col, exp, rtol=1e-12, atol=1e-12))[0][0])
                         problems.append(f"target column {tg}: row {j} (period {j // n}, agent {j % n}) is {col[j]!r}, model function gives {exp[j]!r}")
                 cnt += T * n * (len(r.states) + len(r.choices) + 2)
-                if not targets and not problems:
+                if not targets and not problems and not case.get("skip_chain"):
                     # the value and choice columns of row (t, i) belong to agent i in period t:
                     # C02's row oracle on the reported states
                     Vfull = [r.from_lcm_layout(v, t) for t, v in enumerate(V)]
